@@ -2,6 +2,7 @@ package main
 
 import (
 	"fmt"
+	"os"
 	"sort"
 	"strings"
 
@@ -23,9 +24,10 @@ func c01(tier string) {
 		"per-value atoms are placed on single-valued properties and containsAll/containsSome on non-empty value sets (DESIGN §5 C01 fence i)",
 		"the reference evaluator is the harness's reading of the statement of C01; atoms are true/false by construction of the data",
 	}
-	nSkel := ctx.N(100, 1800) // profiles, 3 families each
-	nQuant := ctx.N(60, 900)  // profiles, 2 families each
-	total := nSkel + nQuant
+	nSkel := ctx.N(100, 1800)      // profiles, 3 families each
+	nQuant := ctx.N(60, 900)       // profiles, 2 families each
+	nSweep := len(c01SweepKinds()) // one profile per offset: every kind of atom at every position of the variable order
+	total := nSkel + nQuant + nSweep
 	if !ctx.IsShard() {
 		ctx.RunShards()
 	} else {
@@ -62,9 +64,23 @@ func c01(tier string) {
 	ctx.Finish()
 }
 
+// c01SweepKinds: the atoms of the sibling sweep (the atom of the known finding F16 is judged in the random families only)
+func c01SweepKinds() []lib.AtomKind {
+	var ks []lib.AtomKind
+	for _, k := range lib.AtomKinds {
+		if k.Name != "inFractional" {
+			ks = append(ks, k)
+		}
+	}
+	return ks
+}
+
 func c01Workload(ctx *lib.Ctx, nSkel, total int) {
+	sweepKinds := c01SweepKinds()
+	sweepFrom := total - len(sweepKinds)
 	ctx.ForEach(total, func(i int) {
 		quant := i >= nSkel
+		sweep := i >= sweepFrom
 		stream := 1
 		if quant {
 			stream = 2
@@ -73,6 +89,9 @@ func c01Workload(ctx *lib.Ctx, nSkel, total int) {
 		nFam := 3
 		if quant {
 			nFam = 2
+		}
+		if sweep {
+			nFam = 1
 		}
 		prof := &lib.ProfileDoc{Name: fmt.Sprintf("c01-%d", i), Prefixes: [][2]string{{"ex", lib.EX}}}
 		g := lib.NewGraph()
@@ -91,6 +110,17 @@ func c01Workload(ctx *lib.Ctx, nSkel, total int) {
 				spec.NAtoms = r.Intn(3)
 				spec.NQuants = 1 + r.Intn(2)
 				spec.QuantDepth = 1 + r.Intn(3)
+				if fam == 0 && !sweep && r.Intn(3) == 0 {
+					// many quantified siblings in one validation, their bodies mostly over set-valued constraints
+					spec.ManyQuants = true
+					spec.NAtoms = r.Intn(2)
+					spec.NQuants = 5 + r.Intn(5)
+					spec.QuantDepth = 1 + r.Intn(2)
+					spec.AtomFilter = func(k lib.AtomKind) bool {
+						return k.Name != "inFractional" && (strings.HasPrefix(k.Name, "contains") || strings.HasPrefix(k.Name, "in") || r.Intn(4) == 0)
+					}
+					ctx.Count("families_with_5_to_10_quantified_siblings", 1)
+				}
 			} else {
 				spec.NAtoms = 1 + r.Intn(5)
 				if fam == 0 && r.Intn(3) == 0 {
@@ -99,7 +129,14 @@ func c01Workload(ctx *lib.Ctx, nSkel, total int) {
 					ctx.Count("families_with_wide_or_of_conjunctions", 1)
 				}
 			}
-			w, root := lib.NewWorld(r, spec)
+			w, root := (*lib.World)(nil), lib.F(nil)
+			if sweep {
+				// 28 siblings: the 25 names of the translator's list and the numbered ones after them
+				w, root = lib.NewSiblingWorld(r, spec.Base, 28, i-sweepFrom, sweepKinds)
+				ctx.Count("sibling_sweep_profiles_28_quantified_siblings", 1)
+			} else {
+				w, root = lib.NewWorld(r, spec)
+			}
 			// merge world graph into the document graph
 			for _, n := range w.G.Nodes {
 				nn := g.AddNode(n.ID, n.Types...)
@@ -138,6 +175,10 @@ func c01Workload(ctx *lib.Ctx, nSkel, total int) {
 		case 3:
 			ptext = strings.Replace(renameInProfileText(ptext, "core"), "  ex: "+lib.EX, "  core: "+lib.EX, 1)
 			ctx.Count("profiles_rebinding_builtin_prefix", 1)
+		}
+		if d := os.Getenv("VERIF_DUMP_C01"); d != "" {
+			os.WriteFile(fmt.Sprintf("%s/c01_%d.yaml", d, i), []byte(ptext), 0o644)
+			os.WriteFile(fmt.Sprintf("%s/c01_%d.jsonld", d, i), []byte(dtext), 0o644)
 		}
 		o := lib.Validate(ptext, dtext)
 		func() {
